@@ -37,7 +37,7 @@ Variants == {"asis", "plural", "upper", "cap", "upperplural"}
 \* (byte, second, hour, gcu ...), not for one- or two-letter symbols
 Symbols == {"b", "s", "kb", "mb", "gb", "tb", "pb", "ns", "us", "ms", "{mu}s"}
 VariantOK(alias, v) == v \in {"asis", "upper", "cap"} \/ alias \notin Symbols
-Unknowns == {"", "widgets", "count", "parsecs", "b2", "msec2", "sample"}
+Unknowns == {"", "widgets", "count", "parsecs", "b2", "msec2", "sample", "bs", "ss", "SS", "xs", "Bs"}   \* (two-letter words ending in s are no plurals of one-letter units)
 SkipTargets == {"count", "sample", "unit", "minimum", "auto"}
 
 \* ---- intended semantics
